@@ -13,6 +13,8 @@ Check(t) ==
     ELSE IF ~FunctionalObs(UNION {{[id |-> t.calls[i].lids[a], f |-> t.calls[i].T[a]] : a \in DOMAIN t.calls[i].lids} : i \in DOMAIN t.calls})
          THEN "trunk-features-depend-on-batch"
     ELSE IF \E i \in DOMAIN t.hist : t.hist[i].used # t.hist[i].fixed THEN "forward-used-another-branch-input"
+    \* a large evaluation (above 2^22 entries of the branch x trunk product): sampled locations, incl. the far end, as in a small batch
+    ELSE IF "big" \in DOMAIN t /\ t.big.large # t.big.small THEN "output-depends-on-what-else-is-in-the-batch(large evaluation)"
     ELSE IF t.fast.out # t.plain.out THEN "fast-path-output"
     ELSE IF t.fast.dx # t.plain.dx THEN "fast-path-first-derivative"
     ELSE IF t.fast.lap # t.plain.lap THEN "fast-path-second-derivative"
